@@ -56,6 +56,11 @@ def leaves (fs : FS) : List (Nat × Kind × Nat) :=
 
 def pathsNodup (fs : FS) : Prop := (fs.map (·.path)).Nodup
 
+/-- one `..` step of a *lexical* normalisation relative to the sandbox root: above the root the path keeps
+    its leading `..` components (such a path is outside every input directory) -/
+def upOne (cur : APath) : APath :=
+  if cur = [] ∨ cur.getLast? = some dotdot then cur ++ [dotdot] else cur.dropLast
+
 /-- kernel path walk from directory `cwd` along relative components: every directory that is
     walked *through* must exist and be a directory; `..` pops.  The final path need not exist. -/
 def walk (fs : FS) : APath → List Name → Except Errno APath
@@ -64,7 +69,7 @@ def walk (fs : FS) : APath → List Name → Except Errno APath
     if isLinkAt fs cur then .error .UNMODELLED
     else if !lexists fs cur then .error .ENOENT
     else if !isDirAt fs cur then .error .ENOTDIR
-    else if c = dotdot then walk fs cur.dropLast rest
+    else if c = dotdot then (if cur = [] then .error .UNMODELLED else walk fs cur.dropLast rest)   -- (leaving the sandbox)
     else walk fs (cur ++ [c]) rest
 
 /-- resolve a pure path given relative to `cwd` (absolute paths start at the root) -/
@@ -116,7 +121,7 @@ def missingPrefixes (fs : FS) (p : APath) : Option (List APath) :=
 def resolveAux (fs : FS) : Nat → APath → List Name → Except Errno APath
   | _, cur, [] => .ok cur
   | fuel, cur, c :: rest =>
-    if c = dotdot then resolveAux fs fuel cur.dropLast rest
+    if c = dotdot then resolveAux fs fuel (upOne cur) rest
     else
       let nxt := cur ++ [c]
       match fs.find nxt with
